@@ -179,3 +179,131 @@ def r15_4(ctx):
     r05_2(ctx)
     r05_3(ctx)
     r06_7(ctx)
+
+
+@rule("R15.5", "C15", "a node is never replaced by an unrelated operand of the same name (its statements would vanish from the instruction)", min_instances=6)
+def r15_5(ctx):
+    from .c11 import name_collision_checks
+
+    name_collision_checks(ctx)
+
+
+# inlined alternatives whose filtered tokens carry meaning, reviewed: (origin, skeleton) -> (dominating rule whose value every
+# consumer rejects, reason).  Everything listed here is C syntax the transformer has no translation for.
+def _flat(v):
+    if isinstance(v, (list, tuple)):
+        for x in v:
+            yield from _flat(x)
+    else:
+        yield v
+
+
+INLINE_REVIEWED = {
+    ("struct_declaration", ". SEMICOLON"): ("struct_or_union_specifier", "member declaration inside a struct/union type"),
+    ("struct_declarator", "COLON ."): ("struct_or_union_specifier", "anonymous bit-field inside a struct/union type"),
+    ("pointer", "MUL_OP ."): ("pointer", "pointer declarator"),
+    ("direct_abstract_declarator", "LSQB . RSQB"): ("abstract_declarator", "array type in a type name"),
+    ("direct_abstract_declarator", ". LSQB RSQB"): ("abstract_declarator", "array type in a type name"),
+    ("direct_abstract_declarator", ". LSQB MUL_OP RSQB"): ("abstract_declarator", "array type in a type name"),
+    ("direct_abstract_declarator", "LPAR . RPAR"): ("abstract_declarator", "grouping / function type in a type name"),
+    ("direct_abstract_declarator", ". LPAR RPAR"): ("abstract_declarator", "function type in a type name"),
+    ("designation", ". EQUAL"): ("initializer_list", "designated initialiser"),
+    ("designator", "LSQB . RSQB"): ("initializer_list", "designated initialiser"),
+    ("designator", "DOT IDENTIFIER"): ("initializer_list", "designated initialiser"),
+}
+# skeletons that only group or terminate their single child
+MEANING_FREE = {
+    ("primary_expr", "LPAR . RPAR"): "parenthesised expression",
+    ("direct_declarator", "LPAR . RPAR"): "parenthesised declarator",
+    ("declaration", ". SEMICOLON"): "declaration without declarator (declares nothing)",
+    ("stmt", ". SEMICOLON"): "statement terminator",
+    ("expr_stmt", ". SEMICOLON"): "statement terminator",
+    ("compound_stmt", "LBRACE . RBRACE"): "block braces",
+    ("compound_stmt", "LBRACE . RBRACE SEMICOLON"): "block braces",
+    ("initializer", "LBRACE . RBRACE"): "braces around a scalar initialiser",
+    ("initializer", "LBRACE . COMMA RBRACE"): "braces around a scalar initialiser",
+    ("op", ". IV"): "operand spelling suffix of an immediate",
+}
+
+
+@rule("R15.6", "C15", "inlining loses no syntax: an alternative Lark inlines (?rule, one kept child, no alias) either only groups/terminates its child or sits below a construct every consumer rejects", min_instances=20)
+def r15_6(ctx):
+    idx = get_index(ctx.env)
+    gm = get_grammar(ctx.env)
+    cbs = transformer_callbacks(idx)
+
+    def reach_without(block):
+        seen, work = set(), ["fbody"]
+        while work:
+            r = work.pop()
+            if r in seen or r not in gm.rules or r in block:
+                continue
+            seen.add(r)
+            for a in gm.rules[r]:
+                for n, t, _ in a.symbols:
+                    if not t:
+                        work.append(n)
+        return seen
+
+    full = reach_without(set())
+    n = 0
+    used_doms = set()
+    for rname in sorted(full):
+        for a in gm.rules[rname]:
+            sh = gm.shape(a, cbs)
+            toks = [nm for nm, t, f in a.symbols if t and f]
+            if not sh[0].startswith("inline") or not toks:
+                continue
+            n += 1
+            key = (rname, a.skeleton())
+            lits = [gm.literal(t) or t for t in toks]
+            if key in MEANING_FREE:
+                ctx.check(f"inlined {rname}: {a.skeleton()}", True, MEANING_FREE[key], "grouping / terminator only", gm.where(rname), nontrivial=False)
+                continue
+            if key in INLINE_REVIEWED:
+                dom, why = INLINE_REVIEWED[key]
+                below = dom == rname or rname not in reach_without({dom})
+                used_doms.add(dom)
+                ctx.check(f"inlined {rname}: {a.skeleton()}", below, f"only reachable below `{dom}` ({why}), which every consumer rejects", "reachable without passing " + dom if not below else "ok", gm.where(rname))
+                continue
+            ctx.check(f"inlined {rname}: {a.skeleton()}", False, "alternative keeps its syntax (alias + callback, or more than one kept child)",
+                      f"Lark replaces this alternative by its only child: the tokens {lits} vanish and nothing can reject or translate the construct", gm.where(rname))
+    ctx.need(n >= 20, f"only {n} inlined alternatives with filtered tokens found")
+    # the constructs named as dominators are rejected by every callback that receives them
+    def tree(r, data):
+        return AObj("Tree", {"data": data, "children": []}, label=f"Tree({data})", origin="tree")
+
+    rejecting = [
+        ("pointer declarator in a declaration", "declaration", lambda r: [mk_vt("T", True, 32), tree(r, "declarator")]),
+        ("pointer declarator with initialiser", "init_declarator", lambda r: [tree(r, "declarator"), r.pure("items[1]", vt=mk_vt("t1", True, 32))]),
+        ("initialiser list as initialiser", "init_declarator", lambda r: [Tok("IDENTIFIER", "a"), tree(r, "initializer_list")]),
+        ("type name with an abstract declarator in a cast", "cast_expr", lambda r: [tree(r, "type_name"), r.pure("items[1]", vt=mk_vt("t1", True, 32))]),
+        ("sizeof(type name)", "unary_expr", lambda r: [Tok("SIZEOF", "sizeof"), tree(r, "type_name")]),
+        ("_Alignof(type name)", "unary_expr", lambda r: [Tok("ALIGNOF", "_Alignof"), tree(r, "type_name")]),
+        ("compound literal", "postfix_expr", lambda r: [tree(r, "type_name"), tree(r, "initializer_list")]),
+        ("call without arguments / array or function declarator", "unsupported_syntax", lambda r: [r.pure("items[0]", vt=mk_vt("t0", True, 32))]),
+    ]
+    for desc, cb, mk in rejecting:
+        if cb not in cbs:
+            ctx.check(f"{desc} is rejected", False, "raises", f"no callback `{cb}`", "rzilcompiler/Transformer/RZILTransformer.py")
+            continue
+        r = Runner(idx)
+        r.fold = False
+        fi, outs = r.run(cb, lambda r=r, mk=mk: mk(r))
+        obs = sorted({("raises " + str(o.value)[:50]) if o.kind == "raise" else ("returns " + (o.value.cls if isinstance(o.value, AObj) else type(o.value).__name__)) for o in outs})
+        ctx.check(f"{desc} is rejected", bool(outs) and all(o.kind == "raise" for o in outs), "raises on every path", "; ".join(obs), fn_where(idx, fi))
+    # struct/union/enum specifiers: the type_specifier callback hands its child to the extension, which rejects unknown trees
+    r = Runner(idx)
+    fi, outs = r.run("type_specifier", lambda: [tree(r, "struct_or_union_specifier")])
+    fwd = [e for o in outs for e in o.events if e[0] == "call" and e[1] == "ext.get_value_type_by_resource_type" and any(isinstance(x, AObj) and x.cls == "Tree" for x in _flat(e[2]))]
+    ctx.check("type_specifier forwards its child to the extension's type table", bool(fwd) and len(fwd) >= len(outs), "ext.get_value_type_by_resource_type(items)", f"{len(fwd)} forwarding calls on {len(outs)} paths", fn_where(idx, fi))
+    fx = idx.func("HexagonTransformerExtension.get_value_type_by_resource_type")
+    for data in ("struct_or_union_specifier", "enum_specifier", "atomic_type_specifier"):
+        outs = Interp(idx).explore(lambda i, data=data: i.call_function(fx, [[AObj("Tree", {"data": data, "children": []}, label=f"Tree({data})")]], self_obj=AObj("HexagonTransformerExtension", {}, label="ext")))
+        ctx.check(f"type tree {data} is rejected by the extension", bool(outs) and all(o.kind == "raise" for o in outs), "raises", str([outcome_text(o)[:40] for o in outs]), fn_where(idx, fx))
+    # the aliased alternatives are really kept apart from their child
+    for rname, skel in (("postfix_expr", ". LPAR RPAR"), ("direct_declarator", ". LSQB RSQB"), ("direct_declarator", ". LSQB MUL_OP RSQB"), ("direct_declarator", ". LPAR RPAR")):
+        alts = [a for a in gm.rules.get(rname, []) if a.skeleton() == skel]
+        ctx.need(len(alts) == 1, f"alternative {rname}: {skel} not found")
+        sh = gm.shape(alts[0], cbs)
+        ctx.check(f"{rname}: {skel} reaches a rejecting callback", sh[0] == "call", "('call', <callback>)", str(sh), gm.where(rname))
